@@ -218,3 +218,138 @@ Proof.
       * cbn [app] in E. exists (VArr vs (tstart op) (current_pos s')), s'. split; [exact E|].
         cbn [value_doc]. rewrite Hd. repeat split; auto. cbn [wrest] in Hl'. rewrite Hr. cbn. lia.
 Qed.
+
+Lemma pop_value_top_back v0 s rest : vlx v0 -> pt s = item_toks (value_items v0) ++ rest ->
+  exists v s', pop_value_top s = WOk v s' /\ value_doc v = value_doc v0 /\ pt s' = rest.
+Proof.
+  intros H Hp. destruct (pop_value_back v0 H (S (length (wrest s))) s rest Hp ltac:(lia)) as (v & s' & E & A & B & _).
+  exists v, s'. auto.
+Qed.
+
+(* ---- tags -------------------------------------------------------------------------------------- *)
+Definition tag_doc (t : tag) : mark * (list (list N) + list ptok) :=
+  (tmark t, match tbody t with TagRef r => inl (ref_doc r) | TagVal v => inr (value_doc v) end).
+
+Definition not_dot (rest : list ptok) : Prop := match rest with [] => True | p :: _ => fst p <> DOT end.
+
+Lemma item_toks_tag t0 : tlx t0 ->
+  item_toks (tag_items t0) =
+  (match tmark t0 with MarkNone => [] | MarkBang => [(BANG, [33])] | MarkQuestion => [(QUESTION, [63])] end) ++
+  match tbody t0 with TagRef r => ref_ptoks r | TagVal (VTok tk _ _) => [(STRING, lit tk)] | TagVal (VArr _ _ _) => [] end.
+Proof.
+  intros [Hm Hb]. unfold tag_items. rewrite item_toks_app. f_equal.
+  - unfold mark_items, mark_ok in *. destruct (tmark t0), (tmark_tok t0) as [mt|]; try contradiction; try reflexivity;
+      destruct Hm as [-> ->]; reflexivity.
+  - destruct (tbody t0) as [r|[tk ? ?|? ? ?]]; [apply item_toks_ref|reflexivity|reflexivity].
+Qed.
+
+Definition body_ok (t0 : tag) : Prop :=
+  match tbody t0 with TagRef r => ref_ok r | TagVal (VTok tk _ _) => ty tk = STRING | TagVal (VArr _ _ _) => False end.
+
+Lemma after_mark_back t0 mk mt s rest : body_ok t0 -> not_dot rest ->
+  pt s = (match tbody t0 with TagRef r => ref_ptoks r | TagVal (VTok tk _ _) => [(STRING, lit tk)] | TagVal (VArr _ _ _) => [] end) ++ rest ->
+  exists t s',
+    match next_type s with
+    | IDENT | BOOL =>
+      wbind (pop_reference s) (fun r s1 => WOk (mkTag mk mt (TagRef r) (ref_start r) (ref_end r)) s1)
+    | STRING =>
+      wbind (pop_value_top s) (fun v s1 => WOk (mkTag mk mt (TagVal v) (value_start v) (value_end v)) s1)
+    | _ => wbind (pop_token s) (fun t s1 => WErr t s1)
+    end = WOk t s' /\ tmark t = mk /\ snd (tag_doc t) = snd (tag_doc t0) /\ pt s' = rest.
+Proof.
+  unfold body_ok. intros Hb Hd Hp. destruct (tbody t0) as [r0|[tk s0 e0|vs s0 e0]] eqn:Eb; [| |contradiction].
+  - destruct (ref_ptoks_head r0 Hb) as (p & r & Hh & Hty).
+    assert (Hn : next_type s = fst p) by (rewrite next_type_pt, Hp, Hh; reflexivity).
+    destruct (pop_reference_back s r0 rest Hb Hp Hd) as (r1 & s' & E & Hl & _ & Hp').
+    rewrite Hn. destruct Hty as [-> | ->]; rewrite E; cbn [wbind];
+      eexists _, s'; (split; [reflexivity|]); unfold tag_doc; cbn; rewrite Eb; unfold ref_doc; rewrite Hl; auto.
+  - cbn [app] in Hp.
+    assert (Hn : next_type s = STRING) by (rewrite next_type_pt, Hp; reflexivity).
+    rewrite Hn.
+    assert (Hv : vlx (VTok (mkTok STRING (lit tk) pos0 pos0) pos0 pos0)) by (constructor; [exact I|reflexivity]).
+    destruct (pop_value_top_back _ s rest Hv Hp) as (v & s' & E & Hdv & Hp'). rewrite E. cbn [wbind].
+    eexists _, s'. split; [reflexivity|]. unfold tag_doc. cbn. rewrite Eb, Hdv. cbn. unfold etok. cbn. rewrite Hb. auto.
+Qed.
+
+Lemma pop_tag_back t0 s rest : tlx t0 -> not_dot rest -> pt s = item_toks (tag_items t0) ++ rest ->
+  exists t s', pop_tag s = WOk t s' /\ tag_doc t = tag_doc t0 /\ pt s' = rest.
+Proof.
+  intros Hlx Hd Hp. rewrite (item_toks_tag t0 Hlx), <- app_assoc in Hp.
+  unfold pop_tag. cbv zeta. destruct Hlx as [Hm Hb]. destruct (tmark t0) eqn:Em.
+  - cbn [app] in Hp.
+    destruct (after_mark_back t0 MarkNone None s rest Hb Hd Hp) as (t & s' & E & A & B & C).
+    assert (Hnm : next_type s <> BANG /\ next_type s <> QUESTION).
+    { rewrite next_type_pt. destruct (tbody t0) as [r0|[tk ? ?|? ? ?]]; [| |contradiction].
+      - destruct (ref_ptoks_head r0 Hb) as (p & r & Hh & Hty). rewrite Hh in Hp. cbn in Hp. rewrite Hp. cbn.
+        destruct Hty as [-> | ->]; split; discriminate.
+      - cbn in Hp. rewrite Hp. cbn. split; discriminate. }
+    exists t, s'. split; [|split; [|exact C]].
+    + destruct (next_type s) eqn:En; try exact E; destruct Hnm; congruence.
+    + unfold tag_doc in *. rewrite A, Em. f_equal. exact B.
+  - cbn [app] in Hp. destruct (pt_cons s _ _ Hp) as (tm & rs & Hr & _ & Hrs & Epop & Hn). cbn [fst] in Hn. rewrite Hn, Epop. cbn [wbind].
+    destruct (after_mark_back t0 MarkBang (Some tm) (mkW rs (Some tm)) rest Hb Hd) as (t & s' & E & A & B & C); [rewrite pt_mk; exact Hrs|].
+    exists t, s'. split; [exact E|]. split; [|exact C]. unfold tag_doc in *. rewrite A, Em. f_equal. exact B.
+  - cbn [app] in Hp. destruct (pt_cons s _ _ Hp) as (tm & rs & Hr & _ & Hrs & Epop & Hn). cbn [fst] in Hn. rewrite Hn, Epop. cbn [wbind].
+    destruct (after_mark_back t0 MarkQuestion (Some tm) (mkW rs (Some tm)) rest Hb Hd) as (t & s' & E & A & B & C); [rewrite pt_mk; exact Hrs|].
+    exists t, s'. split; [exact E|]. split; [|exact C]. unfold tag_doc in *. rewrite A, Em. f_equal. exact B.
+Qed.
+
+(* the first token of a tag can start a tag and is not a dot *)
+Lemma tag_ptoks_head t0 : tlx t0 -> exists p r, item_toks (tag_items t0) = p :: r /\ can_start_tag (fst p) = true /\ fst p <> DOT /\ fst p <> COLON.
+Proof.
+  intros Hlx. rewrite (item_toks_tag t0 Hlx). destruct Hlx as [Hm Hb]. destruct (tmark t0).
+  - cbn [app]. destruct (tbody t0) as [r0|[tk ? ?|? ? ?]]; [| |contradiction].
+    + destruct (ref_ptoks_head r0 Hb) as (p & r & Hh & Hty). rewrite Hh. exists p, r. split; [reflexivity|].
+      destruct Hty as [-> | ->]; repeat split; try reflexivity; discriminate.
+    + eexists _, _. split; [reflexivity|]. repeat split; try reflexivity; discriminate.
+  - eexists _, _. split; [reflexivity|]. repeat split; try reflexivity; discriminate.
+  - eexists _, _. split; [reflexivity|]. repeat split; try reflexivity; discriminate.
+Qed.
+
+Lemma tags_loop_back : forall tags0 fuel acc s rest,
+  Forall tlx tags0 -> not_dot rest -> (match rest with [] => True | p :: _ => can_start_tag (fst p) = false end) ->
+  pt s = item_toks (flat_map (fun t => Sp :: tag_items t) tags0) ++ rest ->
+  (length tags0 < fuel)%nat ->
+  exists ts s', tags_loop fuel acc s = WOk (acc ++ ts) s' /\ map tag_doc ts = map tag_doc tags0 /\ pt s' = rest.
+Proof.
+  induction tags0 as [|t0 r0 IH]; intros fuel acc s rest Hf Hd Hc Hp Hl; (destruct fuel as [|f]; [cbn in Hl; lia|]); cbn [tags_loop].
+  - cbn in Hp. assert (Hn : can_start_tag (next_type s) = false).
+    { rewrite next_type_pt, Hp. destruct rest; [reflexivity|exact Hc]. }
+    rewrite Hn. exists [], s. rewrite app_nil_r. auto.
+  - inversion Hf as [|? ? Ht Hr]; subst. cbn [flat_map] in Hp.
+    change (Sp :: tag_items t0) with ([Sp] ++ tag_items t0) in Hp. rewrite !item_toks_app, <- !app_assoc in Hp. cbn [item_toks app] in Hp.
+    destruct (tag_ptoks_head t0 Ht) as (p & r & Hh & Hcs & _).
+    assert (Hn : can_start_tag (next_type s) = true) by (rewrite next_type_pt, Hp, Hh; exact Hcs).
+    rewrite Hn.
+    destruct (pop_tag_back t0 s (item_toks (flat_map (fun t => Sp :: tag_items t) r0) ++ rest) Ht) as (t & s1 & E & Hdoc & Hp1).
+    + destruct r0 as [|t1 r1]; [exact Hd|]. cbn [flat_map].
+      change (Sp :: tag_items t1) with ([Sp] ++ tag_items t1). rewrite !item_toks_app. cbn [item_toks app].
+      destruct (tag_ptoks_head t1) as (p1 & r1' & Hh1 & _ & Hnd & _); [inversion Hr; assumption|]. rewrite <- app_assoc, Hh1. exact Hnd.
+    + exact Hp.
+    + rewrite E. cbn [wbind].
+      destruct (IH f (acc ++ [t]) s1 rest Hr Hd Hc Hp1 ltac:(cbn in Hl; lia)) as (ts & s' & E' & Hdocs & Hp').
+      exists (t :: ts), s'. rewrite <- app_assoc in E'. split; [exact E'|]. cbn. rewrite Hdoc, Hdocs. auto.
+Qed.
+
+Lemma quals_loop_back : forall quals0 fuel acc s rest,
+  Forall tlx quals0 -> not_dot rest -> (match rest with [] => True | p :: _ => fst p <> COLON end) ->
+  pt s = item_toks (flat_map (fun t => Tok COLON [58] :: tag_items t) quals0) ++ rest ->
+  (length quals0 < fuel)%nat ->
+  exists ts s', quals_loop fuel acc s = WOk (acc ++ ts) s' /\ map tag_doc ts = map tag_doc quals0 /\ pt s' = rest.
+Proof.
+  induction quals0 as [|t0 r0 IH]; intros fuel acc s rest Hf Hd Hc Hp Hl; (destruct fuel as [|f]; [cbn in Hl; lia|]); cbn [quals_loop].
+  - cbn in Hp. assert (Hn : tt_eqb (next_type s) COLON = false).
+    { rewrite next_type_pt, Hp. destruct rest; [reflexivity|]. apply tt_eqb_false. exact Hc. }
+    rewrite Hn. exists [], s. rewrite app_nil_r. auto.
+  - inversion Hf as [|? ? Ht Hr]; subst. cbn [flat_map] in Hp.
+    change (Tok COLON [58] :: tag_items t0) with ([Tok COLON [58]] ++ tag_items t0) in Hp.
+    rewrite !item_toks_app, <- !app_assoc in Hp. cbn [item_toks app] in Hp.
+    assert (Hn : tt_eqb (next_type s) COLON = true) by (rewrite next_type_pt, Hp; reflexivity).
+    rewrite Hn. destruct (pt_cons s _ _ Hp) as (tc & rs & Hrs0 & _ & Hrs & Epop & _). rewrite Epop. cbn [wbind].
+    destruct (pop_tag_back t0 (mkW rs (Some tc)) (item_toks (flat_map (fun t => Tok COLON [58] :: tag_items t) r0) ++ rest) Ht) as (t & s1 & E & Hdoc & Hp1).
+    + destruct r0 as [|t1 r1]; [exact Hd|]. cbn. discriminate.
+    + rewrite pt_mk. exact Hrs.
+    + rewrite E. cbn [wbind].
+      destruct (IH f (acc ++ [t]) s1 rest Hr Hd Hc Hp1 ltac:(cbn in Hl; lia)) as (ts & s' & E' & Hdocs & Hp').
+      exists (t :: ts), s'. rewrite <- app_assoc in E'. split; [exact E'|]. cbn. rewrite Hdoc, Hdocs. auto.
+Qed.
